@@ -28,7 +28,6 @@ import (
 	"encoding/json"
 	"fmt"
 	"math/rand"
-	"os"
 	"runtime"
 	"sort"
 	"strings"
@@ -1042,12 +1041,6 @@ func TestC09(t *testing.T) {
 		return
 	}
 
-	// development aid only (never set by ./check): restrict the phases that run
-	phaseOn := func(n string) bool {
-		v := os.Getenv("C09_DEV_PHASES")
-		return v == "" || strings.Contains(v, n)
-	}
-
 	// ---- phase 1: enumerated interleavings ----
 	rnd := run.Rand("scenarios")
 	var scs []scenario
@@ -1105,9 +1098,6 @@ func TestC09(t *testing.T) {
 	}
 	var jobs []func()
 	var enumTotal, enumComplete atomic.Int64
-	if !phaseOn("1") {
-		scs = nil
-	}
 	for _, sc := range scs {
 		sc := sc
 		jobs = append(jobs, func() {
@@ -1126,9 +1116,7 @@ func TestC09(t *testing.T) {
 
 	// ---- phase 2: random forced interleavings ----
 	nRand := run.N(600, 8000)
-	if !phaseOn("2") {
-		nRand = 0
-	}
+
 	rr := run.Rand("random-scripted")
 	jobs = jobs[:0]
 	kdist := []int{0, 0, 0, 1, 1, 2, 2, 3, 4, 6, 9, 13}
@@ -1172,9 +1160,7 @@ func TestC09(t *testing.T) {
 
 	// ---- phase 3: free running ----
 	nFree := run.N(240, 2000)
-	if !phaseOn("3") {
-		nFree = 0
-	}
+
 	fr := run.Rand("free-running")
 	jobs = jobs[:0]
 	for i := 0; i < nFree; i++ {
